@@ -16,6 +16,7 @@ func checkC19(c *Ctx, r *Report) {
 	r.Explanation = c19Explanation
 	r.Trusted = []string{"go/ssa translation"}
 	c19Scan(c, r)
+	c19Positions(c, r)
 	c19Derived(c, r)
 	r.rule("C19.R3.equal-fold", 1, "equal() folds exactly A-Z, both operands alike, before comparing octets")
 	foldRule(c, r, "C19.R3.equal-fold")
@@ -401,4 +402,120 @@ func c19Canonical(c *Ctx, r *Report) {
 		}
 	}
 	r.check(ok, "C19.R4.canonical-shape", "CanonicalName", c.pos(fn.Pos()), "fold(Fqdn(s))", "CanonicalName is no longer a module-internal case fold applied to Fqdn(s): the canonical form may differ from the name in more than the root label and the case of ASCII letters")
+}
+
+// c19Positions: what the scans hand out. NextLabel looks at every position but the last (a dot there ends the name,
+// it does not start a label) and returns the position after an unescaped dot; PrevLabel returns the position after
+// the n-th unescaped dot from the right.
+func c19Positions(c *Ctx, r *Report) {
+	r.rule("C19.R1.accept-position", 2, "NextLabel / PrevLabel return the position directly after the unescaped dot they stop at")
+	r.rule("C19.R1.scan-range", 1, "NextLabel examines the positions offset .. len(s)-2 (the last octet never starts a label)")
+	for _, fname := range []string{"NextLabel", "PrevLabel"} {
+		fn := c.ssaFunc(fname)
+		if fn == nil {
+			r.cerr("C19.R1.accept-position", fname, "function not found")
+			continue
+		}
+		// the dot position: a value v with a dominating fact s[v] == '.'
+		isDotPos := func(blk *ssa.BasicBlock, v ssa.Value) bool {
+			for _, f := range factsAt(fn, blk) {
+				bin, ok := f.Atom.(*ssa.BinOp)
+				if !ok {
+					continue
+				}
+				if k, isK := constIntOf(bin.Y); isK && k == '.' && ((bin.Op == token.EQL && f.Holds) || (bin.Op == token.NEQ && !f.Holds)) {
+					var idx ssa.Value
+					switch t := bin.X.(type) {
+					case *ssa.Index:
+						idx = t.Index
+					case *ssa.Lookup:
+						idx = t.Index
+					}
+					if idx == v {
+						return true
+					}
+				}
+			}
+			return false
+		}
+		n := 0
+		var bad []string
+		for _, b := range fn.Blocks {
+			ret, ok := b.Instrs[len(b.Instrs)-1].(*ssa.Return)
+			if !ok || len(ret.Results) != 2 {
+				continue
+			}
+			if v, isB := constBool(ret.Results[1]); !isB || v {
+				continue
+			}
+			// only the returns made at a dot (PrevLabel's `n == 0` shortcut returns len(s))
+			add, isAdd := ret.Results[0].(*ssa.BinOp)
+			atDot := false
+			for _, f := range factsAt(fn, b) {
+				if bin, ok := f.Atom.(*ssa.BinOp); ok {
+					if k, isK := constIntOf(bin.Y); isK && k == '.' {
+						atDot = true
+					}
+				}
+			}
+			if !atDot {
+				continue
+			}
+			n++
+			okPos := false
+			if isAdd && add.Op == token.ADD {
+				if k, isK := constIntOf(add.Y); isK && k == 1 && isDotPos(b, add.X) {
+					okPos = true
+				}
+			}
+			if !okPos {
+				bad = append(bad, fmt.Sprintf("%s returns %s", c.pos(ret.Pos()), describeValue(ret.Results[0])))
+			}
+		}
+		if n == 0 {
+			r.undecided("C19.R1.accept-position", fname, c.pos(fn.Pos()), "no return at an unescaped dot found")
+		} else {
+			r.check(len(bad) == 0, "C19.R1.accept-position", fname, c.pos(fn.Pos()), "dot + 1", "%s, not the position after the dot: every label start the helper reports is off, and so are the split offsets and labels derived from it", strings.Join(bad, "; "))
+		}
+	}
+	// scan range of NextLabel
+	fn := c.ssaFunc("NextLabel")
+	if fn == nil {
+		return
+	}
+	s := fn.Params[0]
+	found := false
+	for _, b := range fn.Blocks {
+		iff, ok := b.Instrs[len(b.Instrs)-1].(*ssa.If)
+		if !ok {
+			continue
+		}
+		bin, ok := iff.Cond.(*ssa.BinOp)
+		if !ok || bin.Op != token.LSS {
+			continue
+		}
+		phi, isPhi := bin.X.(*ssa.Phi)
+		if !isPhi || phi.Block() != b {
+			continue
+		}
+		// the counter starts at the offset parameter and steps up by one
+		fromOffset := false
+		for _, e := range phi.Edges {
+			if e == ssa.Value(fn.Params[1]) {
+				fromOffset = true
+			}
+		}
+		if !fromOffset {
+			continue
+		}
+		found = true
+		env := newLinEnv()
+		want := env.lenOfAny(s)
+		want.c--
+		got := env.lin(bin.Y)
+		r.check(got.String() == want.String(), "C19.R1.scan-range", "NextLabel", c.pos(iff.Pos()), "i < len(s)-1", "the scan runs while i < %s instead of i < len(s)-1: a trailing dot is taken for the start of another label (or the last label boundary is not looked at), so Split and CountLabel report one label too many or too few for fully qualified names", describeValue(bin.Y))
+	}
+	if !found {
+		r.undecided("C19.R1.scan-range", "NextLabel", c.pos(fn.Pos()), "the loop over the positions from offset upwards was not found")
+	}
 }
